@@ -93,6 +93,21 @@ Theorem c04_log_changes_only_by_log_gc_merge cfg s t e s' o :
   (exists i F R, In (OLog i F R t) o) \/ e = ENflogGC \/ (exists i en, e = ENflogMerge i en \/ e = ENflogLoad i en).
 Proof. exact (nflog_changes_only_by_log cfg s t e s' o). Qed.
 
+(* The log's GC and the log write of a delivery at the same instant commute (each is atomic under the log's lock):
+   whichever runs first, the entry of the notification just delivered is in the log afterwards, unexpired — so a GC
+   running while notifications are being delivered cannot make an unchanged group notify again.
+   (harness/nfrace runs the real Log / GC / DedupStage concurrently against this.) *)
+Theorem c04_gc_and_delivery_log_commute ret rep now cur F R :
+  0 < ret -> (forall p, cur = Some p -> n_ts p < n_exp p) ->
+  nf_gc now (nf_log ret rep now cur F R) = nf_log ret rep now (nf_gc now cur) F R.
+Proof. exact (gc_log_commute_entry ret rep now cur F R). Qed.
+
+Theorem c04_delivery_entry_survives_concurrent_gc ret rep now cur F R :
+  0 < ret -> (forall p, cur = Some p -> n_ts p < n_exp p) ->
+  exists e, nf_gc now (nf_log ret rep now cur F R) = Some e /\ now < n_exp e /\
+            nf_log ret rep now (nf_gc now cur) F R = Some e.
+Proof. exact (logged_survives_gc ret rep now cur F R). Qed.
+
 (* ---- non-vacuity: a concrete accepted run with a first notification, a suppressed repeat and a due repeat ---- *)
 Definition ex_cfg := mkG 30 300 1000 310 100000 [mkI true].
 Definition ex_run : list (Z * ev) :=
@@ -114,3 +129,5 @@ Proof. vm_compute. reflexivity. Qed.
 Print Assumptions c04_decision_exact.
 Print Assumptions c04_every_notification_justified.
 Print Assumptions c04_log_entry_is_the_delivery_history.
+Print Assumptions c04_gc_and_delivery_log_commute.
+Print Assumptions c04_delivery_entry_survives_concurrent_gc.
